@@ -17,6 +17,7 @@ import numpy as np
 
 INF = float('inf')
 _now = time.time   # captured before closed_world() poisons time.*
+_cpu = time.process_time   # budgets are counted in CPU seconds of the worker, so that machine load does not turn a pass into 'inconclusive'
 
 
 class Abort(BaseException):
@@ -36,7 +37,7 @@ class Unencodable(Inconclusive):
 
 
 EXP = z3.Function('exp', z3.RealSort(), z3.RealSort())
-SOLVER_TIMEOUT_MS = 20000
+SOLVER_TIMEOUT_MS = 60000
 
 
 class Engine:
@@ -129,13 +130,16 @@ class Engine:
             except z3.Z3Exception:
                 self.model = None
 
-    deadline = None
+    deadline = None        # CPU seconds (process_time)
+    wall_deadline = None   # wall-clock guard against genuine hangs
 
     def _check(self, *extra):
         self.nchecks += 1
         t0 = _now()
-        if self.deadline is not None and t0 > self.deadline:
+        if self.deadline is not None and _cpu() > self.deadline:
             raise Inconclusive('configuration time budget exhausted')
+        if self.wall_deadline is not None and t0 > self.wall_deadline:
+            raise Inconclusive('configuration wall-clock guard reached')
         if extra:
             self.solver.push()
             self.solver.add(*extra)
